@@ -29,13 +29,14 @@ CmpBroken(op, x, v) ==
 VARIABLES docs
 lvars == <<docs>>
 
-DocU == [id : Ids, s : SDom, i : IDom, b : {NULL, 0, 1}, j : {NULL}]
+DocU == [id : Ids, s : SDom, i : IDom, b : {NULL, 0, 1}, j : {NULL}, a : {1, 5, 8}]
+ArrOf(id) == CASE id = 1 -> 1 [] id = 2 -> 5 [] OTHER -> 8       \* the array is fixed by the id: <<>>, <<0,1>>, <<2,0,1>>
 \* one document per id at most, b fixed by the id to keep the space small
 
 \* collections are built one document at a time (ascending ids) so that TLC's workers share the enumeration
 LInit == docs = {}
 MaxId(S) == IF S = {} THEN 0 ELSE Max({d.id : d \in S})
-LNext == \E d \in DocU : /\ d.id > MaxId(docs) /\ d.b = (IF d.id = 1 THEN NULL ELSE d.id % 2)
+LNext == \E d \in DocU : /\ d.id > MaxId(docs) /\ d.b = (IF d.id = 1 THEN NULL ELSE d.id % 2) /\ d.a = ArrOf(d.id)
                           /\ docs' = docs \cup {d}
 LSpec == LInit /\ [][LNext]_lvars
 
@@ -74,6 +75,16 @@ Membership ==
     /\ In = UNION {F([t |-> "cmp", f |-> f, op |-> "_eq", v |-> v]) : v \in vs}
     /\ F([t |-> "in", f |-> f, op |-> "_nin", vs |-> vs]) = docs \ In
     /\ F([t |-> "like", f |-> "s", op |-> "_nlike", p |-> "a%"]) = docs \ F([t |-> "like", f |-> "s", op |-> "_like", p |-> "a%"])
+
+\* array quantifiers: _none is the complement of _any, _all is _none of the negated comparison, an empty array satisfies _all
+NegOp(o) == CASE o = "_eq" -> "_ne" [] o = "_ne" -> "_eq" [] o = "_gt" -> "_le" [] o = "_le" -> "_gt" [] o = "_lt" -> "_ge" [] o = "_ge" -> "_lt"
+Arrays ==
+  \A o \in Ops, v \in 0..2 :
+    LET A(q, op) == F([t |-> "arr", f |-> "a", q |-> q, op |-> op, v |-> v]) IN
+    /\ A("_none", o) = docs \ A("_any", o)
+    /\ A("_all", o) = A("_none", NegOp(o))
+    /\ {d \in docs : Elems(d.a) = {}} \subseteq A("_all", o)
+    /\ A("_any", o) \subseteq {d \in docs : Elems(d.a) # {}}
 
 Keys == {<<[f |-> "s", desc |-> FALSE]>>, <<[f |-> "i", desc |-> TRUE]>>,
          <<[f |-> "s", desc |-> TRUE], [f |-> "i", desc |-> FALSE]>>, <<[f |-> "b", desc |-> FALSE], [f |-> "s", desc |-> FALSE]>>}
